@@ -5,6 +5,7 @@ package itp
 import (
 	"errors"
 	"fmt"
+	"sync/atomic"
 
 	"github.com/truora/minidyn/interpreter"
 	"github.com/truora/minidyn/types"
@@ -150,9 +151,69 @@ func errClass(err error) string {
 	return "other"
 }
 
-// Match evaluates a condition through interpreter.Language.Match. The item actually passed is
-// returned so that the caller can check it was not modified.
+// warm is a pool of long-lived Language values: every evaluation runs once on a fresh Language
+// and once more on one that has served every earlier evaluation of its worker (and, with the
+// process, every package-level cache has). The two must agree - an interpreter that remembers
+// anything between calls (a parse cache keyed by the expression text, a memoised path) answers
+// the SAME text under OTHER bindings from memory. A disagreement is outcome "D", which no
+// acceptance set contains.
+var warm = make(chan *interpreter.Language, 64)
+
+func getWarm() *interpreter.Language {
+	select {
+	case l := <-warm:
+		return l
+	default:
+		return &interpreter.Language{}
+	}
+}
+
+func putWarm(l *interpreter.Language) {
+	select {
+	case warm <- l:
+	default:
+	}
+}
+
+// WarmFilter, when set, limits the second evaluation to the expressions it accepts (a check
+// with tens of millions of strings repeats the short ones only).
+var WarmFilter func(expr string) bool
+
+// WarmEvaluations counts the second evaluations.
+var WarmEvaluations int64
+
+// OnDiverge, when set, is told about every disagreement (kind is "Match" or "Update").
+var OnDiverge func(kind, expr, msg string, rep map[string]interface{})
+
+func diverged(kind, expr, msg string, item val.Item, names map[string]string, values map[string]val.V) {
+	if OnDiverge != nil {
+		OnDiverge(kind, expr, msg, map[string]interface{}{"expression": expr, "item": item, "names": names, "values": values})
+	}
+}
+
+// Match evaluates a condition through interpreter.Language.Match on a fresh Language and once more
+// on a long-lived one (outcome "D" if the two disagree). The item actually passed is returned so
+// that the caller can check it was not modified.
 func Match(expr string, item val.Item, names map[string]string, values map[string]val.V) (out Outcome, passed map[string]*types.Item) {
+	out, passed = matchOn(&interpreter.Language{}, expr, item, names, values)
+	if WarmFilter != nil && !WarmFilter(expr) {
+		return out, passed
+	}
+	l := getWarm()
+	out2, passed2 := matchOn(l, expr, item, names, values)
+	atomic.AddInt64(&WarmEvaluations, 1)
+	if out2.O != "P" {
+		putWarm(l) // a Language that panicked half-way is not reused
+	}
+	if out2.O != out.O || !val.ItemEqual(ItemFromTypes(passed), ItemFromTypes(passed2)) {
+		o := Outcome{O: "D", Msg: fmt.Sprintf("history-dependent: a fresh Language answers %s %s, a Language that evaluated other expressions before answers %s %s", out.O, out.Msg, out2.O, out2.Msg)}
+		diverged("Match", expr, o.Msg, item, names, values)
+		return o, passed
+	}
+	return out, passed
+}
+
+func matchOn(li *interpreter.Language, expr string, item val.Item, names map[string]string, values map[string]val.V) (out Outcome, passed map[string]*types.Item) {
 	passed = ItemToTypes(item)
 	if passed == nil {
 		passed = map[string]*types.Item{}
@@ -162,7 +223,6 @@ func Match(expr string, item val.Item, names map[string]string, values map[strin
 			out = Outcome{O: "P", Msg: fmt.Sprint(p)}
 		}
 	}()
-	li := &interpreter.Language{}
 	al := map[string]string{}
 	for k, v := range names {
 		al[k] = v
@@ -181,6 +241,25 @@ func Match(expr string, item val.Item, names map[string]string, values map[strin
 // Update applies an update expression through interpreter.Language.Update and returns the
 // resulting item (the map passed in is updated in place by the library).
 func Update(expr string, item val.Item, names map[string]string, values map[string]val.V) (out Outcome, result val.Item) {
+	out, result = updateOn(&interpreter.Language{}, expr, item, names, values)
+	if WarmFilter != nil && !WarmFilter(expr) {
+		return out, result
+	}
+	l := getWarm()
+	out2, result2 := updateOn(l, expr, item, names, values)
+	atomic.AddInt64(&WarmEvaluations, 1)
+	if out2.O != "P" {
+		putWarm(l)
+	}
+	if out2.O != out.O || !val.ItemEqual(result, result2) {
+		o := Outcome{O: "D", Msg: fmt.Sprintf("history-dependent: a fresh Language gives %s %s, a Language that applied other expressions before gives %s %s", out.O, result.CanonText(), out2.O, result2.CanonText())}
+		diverged("Update", expr, o.Msg, item, names, values)
+		return o, result2
+	}
+	return out, result
+}
+
+func updateOn(li *interpreter.Language, expr string, item val.Item, names map[string]string, values map[string]val.V) (out Outcome, result val.Item) {
 	passed := ItemToTypes(item)
 	if passed == nil {
 		passed = map[string]*types.Item{}
@@ -191,7 +270,6 @@ func Update(expr string, item val.Item, names map[string]string, values map[stri
 			result = ItemFromTypes(passed)
 		}
 	}()
-	li := &interpreter.Language{}
 	al := map[string]string{}
 	for k, v := range names {
 		al[k] = v
